@@ -264,3 +264,7 @@ def run(chk):
                 raise Violation(f"init_rar sizes[{kind}]", str(got), str(exp))
             return "candidate / selected sizes of the right family"
         chk.run("C17.R6", f"{RAR}:init_rar", {"generator": kind}, go_sizes, construct=f"init_rar sizes[{kind}]")
+
+    # ---------------- R7 the candidates are ranked with the current network: what the training loop hands to the trigger
+    from .C16 import run_solve_trigger
+    run_solve_trigger(chk, "C17.R7")
